@@ -747,8 +747,8 @@ def health(m: Any, tier: str) -> Any:
     c = m["classes"]
     problems = []
     for name, least in [("invalid-key", 0.15), ("invalid-utf8", 0.15), ("tree:valid", 0.2),
-                        ("hidden-file", 0.2), ("file-in-hidden-dir", 0.1), ("symlink", 0.15),
-                        ("name-ends-with-newline", 0.02), ("unicode-whitespace-around", 0.3), ("bom", 0.05)]:
+                        ("hidden-file", 0.2), ("file-in-hidden-dir", 0.06), ("symlink", 0.15),
+                        ("name-ends-with-newline", 0.01), ("unicode-whitespace-around", 0.3), ("bom", 0.04)]:
         if c.get(name, 0) < least * ev:
             problems.append(f"class {name}: {c.get(name, 0)}/{ev} < {least:.0%}")
     if m["nontrivial_n"] < 0.2 * ev:
